@@ -94,3 +94,7 @@ pub fn shrink_step(case: &ProgCase, idx: usize) -> vcore::Step<ProgCase> {
         }
     }
 }
+
+pub fn sample_of(case: &ProgCase) -> serde_json::Value {
+    vcore::truncate_value(serde_json::json!({ "source": render(&case.prog, &case.plan).text }), 2500)
+}
